@@ -54,15 +54,18 @@ Definition bitnot (w a : N) : N := notw w a.
 (** [x as u32] *)
 Definition as_u32 (x : N) : N := wrap 32 x.
 (** [xs[i]] on a slice or array: panics in every profile when out of range *)
+Definition len {A} (xs : list A) : N := N.of_nat (length xs).
+(** (the bound is compared in [N] first so that a huge index is never converted to unary) *)
 Definition index {A} (xs : list A) (i : N) : res A :=
-  match nth_error xs (N.to_nat i) with Some x => Ok x | None => Panic end.
+  if i <? len xs
+  then match nth_error xs (N.to_nat i) with Some x => Ok x | None => Panic end
+  else Panic.
 (** [xs[i] = v] *)
 Definition store {A} (xs : list A) (i : N) (v : A) : res (list A) :=
-  if Nat.ltb (N.to_nat i) (length xs) then Ok (upd (N.to_nat i) v xs) else Panic.
+  if i <? len xs then Ok (upd (N.to_nat i) v xs) else Panic.
 (** [debug_assert!(b)] *)
 Definition debug_assert (p : profile) (b : bool) : res unit :=
   if b then Ok tt else match p with Debug => Panic | Release => Ok tt end.
-Definition len {A} (xs : list A) : N := N.of_nat (length xs).
 
 (** struct fields *)
 Definition f0 (v : list N) : N := nth 0 v 0.
